@@ -4,6 +4,7 @@ import (
 	"bytes"
 	"context"
 	"fmt"
+	"io"
 	"io/fs"
 	"math/rand"
 	"runtime"
@@ -47,6 +48,8 @@ func c12cases(env *core.Env) []c12case {
 			shape = "big"
 		case i%40 == 11:
 			shape = "many"
+		case i%40 == 31:
+			shape = "many-empty"
 		case i%6 == 5:
 			shape = "escaping"
 		}
@@ -59,7 +62,7 @@ func init() {
 	core.Register(&core.Prop{
 		ID:    "C12",
 		Level: "exploration",
-		Rule: "seeded well-formed archives (1..40 entries; orders: parents first, children first, shuffled, parents never listed; name spellings x, ./x, /x, a//b, a/./b, with and without trailing slash on directories; in a quarter of the archives an explicit entry for the root ('./', '.', '/') carrying its own permission bits; permission bits from a fixed set; sizes 0, 1 and around the 150 KiB small-buffer and 4 MiB copy-buffer thresholds; 'many' archives with 300 small entries, more than the buffer pool holds; archives with one escaping name ../x, a/../../x, ..) are unpacked 3 (5 thorough) times each into the default destination, an explicit mem.FS, a destination exposing only OpenFile+Chmod+Mkdir(+Open) and a keyvalue.FS over the real mem store whose transactions yield the processor at random (to shake the background writers); after Done() the tree seen through the tar FS and the destination itself are compared with an independent model of the archive's logical tree: " +
+		Rule: "seeded well-formed archives (1..40 entries; orders: parents first, children first, shuffled, parents never listed; name spellings x, ./x, /x, a//b, a/./b, with and without trailing slash on directories; in a quarter of the archives an explicit entry for the root ('./', '.', '/') carrying its own permission bits; permission bits from a fixed set; sizes 0, 1 and around the 150 KiB small-buffer and 4 MiB copy-buffer thresholds; 'many' archives with 300 small entries, more than the buffer pool holds; 'many-empty' archives with 100 zero-length files before ordinary ones; archives with one escaping name ../x, a/../../x, ..) are unpacked 3 (5 thorough) times each (every second time through a source that returns short reads) into the default destination, an explicit mem.FS, a destination exposing only OpenFile+Chmod+Mkdir(+Open) and a keyvalue.FS over the real mem store whose transactions yield the processor at random (to shake the background writers); after Done() the tree seen through the tar FS and the destination itself are compared with an independent model of the archive's logical tree: " +
 			"every regular entry with its bytes and permission bits, every directory entry with its bits, every ancestor as a directory, nothing else; escaping archives must end with UnarchiveErr and must not have asked the destination for any invalid path. Non-trivial: archives with both explicit and implied directories, or sizes across a threshold, or an escaping entry; distinct by archive",
 		Assumptions: []string{"entry names are distinct after normalisation", "the mode of implied (never listed) ancestors, and of the root unless the archive has an entry for it, is not compared", "race detector on; background writer schedules vary between the repeated unpackings"},
 		NumCases:    func(env *core.Env) int { return len(c12cases(env)) },
@@ -90,11 +93,14 @@ func c12archive(r *rand.Rand, shape string) []tarx.Entry {
 	if shape == "many" {
 		nEntries = 300
 	}
+	if shape == "many-empty" {
+		nEntries = 120 // more zero-length files than the small-buffer pool holds, then ordinary ones
+	}
 	seen := map[string]bool{}
 	for len(nodes) < nEntries {
 		parent := dirs[r.Intn(len(dirs))]
 		n := names[r.Intn(len(names))]
-		if shape == "many" || r.Intn(3) == 0 {
+		if shape == "many" || shape == "many-empty" || r.Intn(3) == 0 {
 			n = fmt.Sprintf("%s%d", n, len(nodes))
 		}
 		p := n
@@ -105,7 +111,7 @@ func c12archive(r *rand.Rand, shape string) []tarx.Entry {
 			continue
 		}
 		seen[p] = true
-		isDir := r.Intn(3) == 0 && shape != "many"
+		isDir := r.Intn(3) == 0 && shape != "many" && shape != "many-empty"
 		nodes = append(nodes, node{p, isDir})
 		if isDir {
 			dirs = append(dirs, p)
@@ -161,6 +167,9 @@ func c12archive(r *rand.Rand, shape string) []tarx.Entry {
 			default:
 				e.Size = r.Intn(3000)
 			}
+			if shape == "many-empty" && len(entries) < 100 {
+				e.Size = 0
+			}
 		}
 		entries = append(entries, e)
 	}
@@ -182,6 +191,29 @@ func c12archive(r *rand.Rand, shape string) []tarx.Entry {
 		entries = append(entries[:at], append([]tarx.Entry{esc}, entries[at:]...)...)
 	}
 	return entries
+}
+
+// chunkedReader delivers its data in short reads.
+type chunkedReader struct {
+	data  []byte
+	pos   int
+	chunk int
+}
+
+func (c *chunkedReader) Read(p []byte) (int, error) {
+	if c.pos >= len(c.data) {
+		return 0, io.EOF
+	}
+	n := c.chunk
+	if n > len(p) {
+		n = len(p)
+	}
+	if c.pos+n > len(c.data) {
+		n = len(c.data) - c.pos
+	}
+	copy(p, c.data[c.pos:c.pos+n])
+	c.pos += n
+	return n, nil
 }
 
 // loggingDest records every path the tar FS asks the destination for.
@@ -279,7 +311,13 @@ func c12run(env *core.Env, idx int) core.CaseResult {
 		sig := func(what string) string { return fmt.Sprintf("C12|%s|%s|%s", cs.Dest, cs.Shape, what) }
 		var t *hptar.ReaderFS
 		var nerr error
-		if p := core.Recover(func() { t, nerr = hptar.NewReaderFS(context.Background(), bytes.NewReader(arch), opt) }); p != "" || nerr != nil {
+		var stream io.Reader = bytes.NewReader(arch)
+		if run%2 == 1 {
+			// every second unpacking reads the archive through a source that returns short reads (a pipe, a socket, a
+			// decompressor): at most 'chunk' bytes per Read, never an error before the end
+			stream = &chunkedReader{data: arch, chunk: []int{1000, 333, 4096 + 17}[(run/2+int(cs.Seed))%3]}
+		}
+		if p := core.Recover(func() { t, nerr = hptar.NewReaderFS(context.Background(), stream, opt) }); p != "" || nerr != nil {
 			res.Violate(sig("constructor"), fmt.Sprintf("NewReaderFS failed: %v %s", nerr, p), wit)
 			return res
 		}
